@@ -29,9 +29,13 @@ def c14(tier, seed):
     queue = {"module": "HetGen", "tag": "queue", "invariants": HINV,
              "constants": hconsts(cbs=1, enq=3 if quick else 4, inv=0, ops={"al", "nq", "pa", "po", "pi"}, cbshapes=(2, 3, 5, 7) if quick else (1, 2, 3, 4, 5, 6, 7),
                                   argshapes=(1, 2, 4, 5, 6) if quick else (1, 2, 3, 4, 5, 6, 7))}
+    # listeners that enqueue while process / processOne / processIf runs them (events arriving during a processing call)
+    nested = {"module": "HetGen", "tag": "queue-nested", "invariants": HINV,
+              "constants": hconsts(cbs=2, enq=3, inv=0, ops={"al", "pl", "nq", "pa", "po", "pi"}, cbshapes=(2, 8) if quick else (2, 3, 8), argshapes=(2, 4) if quick else (1, 2, 4, 6),
+                                   predshapes=(2, 3, 6))}
     worlds = [hworld("h_list_single", 0, threading=0, only_tags=["route"]),
               hworld("h_disp_multi", 1, threading=1, only_tags=["route"], fraction=0.3, fill="0xFF"),
-              hworld("h_queue_multi", 2, threading=1, only_tags=["queue"]),
+              hworld("h_queue_multi", 2, threading=1, only_tags=["queue", "queue-nested"]),
               hworld("h_queue_spin_route", 2, threading=2, only_tags=["route"], fraction=0.2, fill="0x00"),
               hworld("h_queue_clang17", 2, threading=1, only_tags=["queue"], fraction=0.25, compiler="clang++", std="c++17", opt="-O2")]
     # include-event mode with a movable key taken by value (evaluation order, implicit move): shapes 1,2 of the same tables
@@ -45,7 +49,7 @@ def c14(tier, seed):
         return w
     worlds += [iw("hi_queue_gxx11", 2, only_tags=["incl"]), iw("hi_queue_clang14", 2, only_tags=["incl"], compiler="clang++", std="c++14"),
                iw("hi_queue_gxx20", 2, only_tags=["incl"], std="c++20", opt="-O2"), iw("hi_disp_clang20", 1, only_tags=["incl-disp"], compiler="clang++", std="c++20")]
-    return {"interp": "harness/het_interp.cpp", "trace_module": "TraceHet", "models": [route, queue, incl, incld], "worlds": worlds,
+    return {"interp": "harness/het_interp.cpp", "trace_module": "TraceHet", "models": [route, queue, nested, incl, incld], "worlds": worlds,
             "rule": "every transition of the bounded HetGen reference model over five prototypes of differently sized, non-trivial argument types: callbacks of seven "
                     "shapes (incl. callable with several prototypes / with anything), invocation and enqueue with seven argument shapes (incl. converting "
                     "ones), insert before handles of the same and of other prototypes, process / processOne / processIf with five predicate shapes over "
